@@ -30,7 +30,8 @@ static void fill_col(ref_coldata* c, int ptype, int tlen, int D, int R, int leaf
     }
 }
 
-static void check_tree(const int* nchild, const int* rep, int n, bool collide, const char* desc) {
+static void check_tree(const int* nchild, const int* rep, int n, int naming, const char* desc) {
+    bool collide = naming == 1;      /* naming: 0 unique, 1 all leaves share one name, 2 every leaf name is a proper prefix of the names of the leaves before it */
     /* textbook: DFS, leaf = node without children (root excluded), def = #optional+repeated on the path, rep = #repeated */
     ref_schema_elem* sc = ref_alloc(&RA, sizeof(ref_schema_elem) * (size_t)n); int leaf_of[16], nleaf = 0, D[16], R[16], ltype[16];
     int stack_rem[16], stack_d[16], stack_r[16], sp = 0; char key[160];
@@ -40,7 +41,7 @@ static void check_tree(const int* nchild, const int* rep, int n, bool collide, c
         if (i > 0) { e->has_rep = true; e->rep = rep[i]; if (rep[i] == 1) d++; else if (rep[i] == 2) { d++; r++; } }
         if (sp) stack_rem[sp - 1]--;
         if (nchild[i] > 0 || i == 0) { sprintf(nm, collide && i ? "g" : "g%d", i); if (i == 0) strcpy(nm, "schema"); e->has_num_children = nchild[i] > 0 || i == 0; e->num_children = nchild[i]; }
-        else { sprintf(nm, collide ? "x" : "n%d", i); e->has_type = true; e->type = TY[nleaf % 8]; if (e->type == PT_FLBA) { e->has_type_length = true; e->type_length = 2; } leaf_of[nleaf] = i; D[nleaf] = d; R[nleaf] = r; ltype[nleaf] = e->type; nleaf++; }
+        else { if (naming == 2) { int L = 10 - nleaf; if (L < 1) L = 1; memset(nm, 'q', (size_t)L); nm[0] = 'p'; nm[L] = 0; } else sprintf(nm, collide ? "x" : "n%d", i); e->has_type = true; e->type = TY[nleaf % 8]; if (e->type == PT_FLBA) { e->has_type_length = true; e->type_length = 2; } leaf_of[nleaf] = i; D[nleaf] = d; R[nleaf] = r; ltype[nleaf] = e->type; nleaf++; }
         e->name = (ref_bin){ (const uint8_t*)nm, (int32_t)strlen(nm), true };
         if (nchild[i] > 0) { stack_rem[sp] = nchild[i]; stack_d[sp] = d; stack_r[sp] = r; sp++; }
         while (sp && stack_rem[sp - 1] == 0) sp--;
@@ -87,10 +88,10 @@ static void check_tree(const int* nchild, const int* rep, int n, bool collide, c
             /* lookup by name */
             char nmz[16]; memcpy(nmz, sc[leaf_of[l]].name.p, (size_t)sc[leaf_of[l]].name.n); nmz[sc[leaf_of[l]].name.n] = 0;
             int want = collide ? 0 : l; int gotix = carquet_schema_find_column(s, nmz);
-            if (gotix != want) mc_fail(collide ? "find-column.colliding-names" : "find-column.unique-names", "%s: find_column(%s) = %d, expected %d", desc, nmz, gotix, want);
+            if (gotix != want) mc_fail(collide ? "find-column.colliding-names" : naming == 2 ? "find-column.prefix-names" : "find-column.unique-names", "%s: find_column(%s) = %d, expected %d", desc, nmz, gotix, want);
         }
         if (carquet_schema_find_column(s, "no_such_column") != -1) mc_fail("find-column.missing", "%s: find_column of an absent name is not -1", desc);
-        if (!collide && carquet_schema_find_column(s, "g1") != -1 && nchild[1 < n ? 1 : 0] > 0) mc_fail("find-column.group-name", "%s: find_column(group name) returned a column", desc);
+        if (naming == 0 && carquet_schema_find_column(s, "g1") != -1 && nchild[1 < n ? 1 : 0] > 0) mc_fail("find-column.group-name", "%s: find_column(group name) returned a column", desc);
     }
     carquet_reader_close(rd); free(x); ref_buf_free(&img);
 }
@@ -111,15 +112,15 @@ static void trees(int n, int pos, int open, int remaining, void (*fn)(int n, voi
 }
 static void on_tree(int n, void* ctx) {
     (void)ctx; int rep[16]; long total = 1; for (int i = 1; i < n; i++) total *= 3;
-    for (long code = 0; code < total; code++) for (int collide = 0; collide < 2; collide++) {
+    for (long code = 0; code < total; code++) for (int collide = 0; collide < 3; collide++) {
         if (!mc_next()) continue;
         long v = code; rep[0] = 0; for (int i = 1; i < n; i++) { rep[i] = (int)(v % 3); v /= 3; }
         char d[200]; int k = 0; k += snprintf(d + k, sizeof d - (size_t)k, "tree=["); for (int i = 0; i < n; i++) k += snprintf(d + k, sizeof d - (size_t)k, "%d", g_nc[i]);
-        k += snprintf(d + k, sizeof d - (size_t)k, "];rep=["); for (int i = 1; i < n; i++) k += snprintf(d + k, sizeof d - (size_t)k, "%c", "ROP"[rep[i] == 0 ? 0 : rep[i] == 1 ? 1 : 2]); snprintf(d + k, sizeof d - (size_t)k, "];names=%s", collide ? "colliding" : "unique");
+        k += snprintf(d + k, sizeof d - (size_t)k, "];rep=["); for (int i = 1; i < n; i++) k += snprintf(d + k, sizeof d - (size_t)k, "%c", "ROP"[rep[i] == 0 ? 0 : rep[i] == 1 ? 1 : 2]); snprintf(d + k, sizeof d - (size_t)k, "];names=%s", collide == 1 ? "colliding" : collide == 2 ? "prefixes" : "unique");
         mc_desc("c17:%s", d); uint64_t h = 0x17; for (int i = 0; i < n; i++) h = mc_mix(h, (uint64_t)g_nc[i] * 4 + (uint64_t)rep[i]); mc_case_key(mc_mix(h, (uint64_t)collide + 2 * (uint64_t)n)); mc_nontrivial();
         int rr[16]; for (int i = 0; i < n; i++) rr[i] = rep[i] == 0 ? 0 : rep[i] == 1 ? 1 : 2;
         /* R O P letters: R=required(0) O=optional(1) P=repeated(2) */
-        check_tree(g_nc, rr, n, collide != 0, d); ref_arena_free(&RA);
+        check_tree(g_nc, rr, n, collide, d); ref_arena_free(&RA);
     }
 }
 
@@ -173,10 +174,88 @@ static void builder_case(int ncols, int repmode, int tymode) {
     carquet_schema_free(s);
 }
 
+
+/* ---- logical types ------------------------------------------------------------------------ */
+typedef struct { int thrift_id, carquet_id; int unit /* 1..3 */, utc, precision, scale, bit_width, is_signed; int ptype, tlen; const char* name; } lt_t;
+static const lt_t LT[] = {
+    { 1, CARQUET_LOGICAL_STRING, 0,0,0,0,0,0, PT_BYTE_ARRAY, 0, "string" }, { 4, CARQUET_LOGICAL_ENUM, 0,0,0,0,0,0, PT_BYTE_ARRAY, 0, "enum" }, { 6, CARQUET_LOGICAL_DATE, 0,0,0,0,0,0, PT_INT32, 0, "date" },
+    { 5, CARQUET_LOGICAL_DECIMAL, 0,0,9,2,0,0, PT_INT32, 0, "decimal9_2" }, { 5, CARQUET_LOGICAL_DECIMAL, 0,0,38,0,0,0, PT_FLBA, 16, "decimal38_0" },
+    { 7, CARQUET_LOGICAL_TIME, 1,1,0,0,0,0, PT_INT32, 0, "time_ms_utc" }, { 7, CARQUET_LOGICAL_TIME, 2,0,0,0,0,0, PT_INT64, 0, "time_us" }, { 7, CARQUET_LOGICAL_TIME, 3,1,0,0,0,0, PT_INT64, 0, "time_ns_utc" },
+    { 8, CARQUET_LOGICAL_TIMESTAMP, 1,0,0,0,0,0, PT_INT64, 0, "ts_ms" }, { 8, CARQUET_LOGICAL_TIMESTAMP, 2,1,0,0,0,0, PT_INT64, 0, "ts_us_utc" }, { 8, CARQUET_LOGICAL_TIMESTAMP, 3,0,0,0,0,0, PT_INT64, 0, "ts_ns" },
+    { 10, CARQUET_LOGICAL_INTEGER, 0,0,0,0,8,1, PT_INT32, 0, "int8" }, { 10, CARQUET_LOGICAL_INTEGER, 0,0,0,0,16,0, PT_INT32, 0, "uint16" }, { 10, CARQUET_LOGICAL_INTEGER, 0,0,0,0,32,0, PT_INT32, 0, "uint32" }, { 10, CARQUET_LOGICAL_INTEGER, 0,0,0,0,64,1, PT_INT64, 0, "int64" },
+    { 12, CARQUET_LOGICAL_JSON, 0,0,0,0,0,0, PT_BYTE_ARRAY, 0, "json" }, { 13, CARQUET_LOGICAL_BSON, 0,0,0,0,0,0, PT_BYTE_ARRAY, 0, "bson" }, { 14, CARQUET_LOGICAL_UUID, 0,0,0,0,0,0, PT_FLBA, 16, "uuid" }, { 15, CARQUET_LOGICAL_FLOAT16, 0,0,0,0,0,0, PT_FLBA, 2, "float16" },
+};
+#define NLT ((int)(sizeof LT / sizeof LT[0]))
+static void check_logical(const carquet_logical_type_t* g, const lt_t* w, const char* where, const char* desc) {
+    char key[96]; snprintf(key, sizeof key, "logical-type.%s.%s", where, w->thrift_id == 7 || w->thrift_id == 8 ? "time-unit-or-utc" : w->thrift_id == 5 ? "decimal" : w->thrift_id == 10 ? "integer" : "id");
+    if (!g) { snprintf(key, sizeof key, "logical-type.%s.missing", where); mc_fail(key, "%s: column %s has no logical type", desc, w->name); return; }
+    bool ok = (int)g->id == w->carquet_id;
+    if (ok && w->thrift_id == 5) ok = g->params.decimal.precision == w->precision && g->params.decimal.scale == w->scale;
+    if (ok && w->thrift_id == 7) ok = (int)g->params.time.unit == w->unit - 1 && g->params.time.is_adjusted_to_utc == (w->utc != 0);
+    if (ok && w->thrift_id == 8) ok = (int)g->params.timestamp.unit == w->unit - 1 && g->params.timestamp.is_adjusted_to_utc == (w->utc != 0);
+    if (ok && w->thrift_id == 10) ok = g->params.integer.bit_width == w->bit_width && g->params.integer.is_signed == (w->is_signed != 0);
+    if (!ok) mc_fail(key, "%s: column %s: logical type id %d (unit %d utc %d / precision %d scale %d / width %d signed %d), stored %s", desc, w->name, (int)g->id, (int)g->params.time.unit, (int)g->params.time.is_adjusted_to_utc, g->params.decimal.precision, g->params.decimal.scale, g->params.integer.bit_width, g->params.integer.is_signed, w->name);
+}
+static void logical_case(int first, int count, int nested) {
+    /* (i) a reference-written footer with these logical types, flat or inside an optional group, read through the schema accessors */
+    char desc[96]; snprintf(desc, sizeof desc, "c17:logical;first=%d;count=%d;nested=%d", first, count, nested);
+    ref_schema_elem sc[40]; memset(sc, 0, sizeof sc); int ns = 0;
+    sc[ns].name = (ref_bin){ (const uint8_t*)"schema", 6, true }; sc[ns].has_num_children = true; sc[ns].num_children = nested ? 1 : count; ns++;
+    if (nested) { sc[ns].name = (ref_bin){ (const uint8_t*)"grp", 3, true }; sc[ns].has_num_children = true; sc[ns].num_children = count; sc[ns].has_rep = true; sc[ns].rep = 1; ns++; }
+    ref_coldata cols[24]; ref_chunk_layout L[24]; memset(cols, 0, sizeof cols); memset(L, 0, sizeof L); int64_t rows = 1;
+    for (int i = 0; i < count; i++) { const lt_t* w = &LT[(first + i) % NLT]; ref_schema_elem* e = &sc[ns++];
+        e->name = (ref_bin){ (const uint8_t*)w->name, (int32_t)strlen(w->name), true }; e->has_type = true; e->type = w->ptype; if (w->ptype == PT_FLBA) { e->has_type_length = true; e->type_length = w->tlen; } e->has_rep = true; e->rep = 0;
+        e->has_logical = true; e->logical.id = w->thrift_id; e->logical.unit = w->unit; e->logical.utc = w->utc != 0; e->logical.precision = w->precision; e->logical.scale = w->scale; e->logical.bit_width = (int8_t)w->bit_width; e->logical.is_signed = w->is_signed != 0;
+        if (w->thrift_id == 5) { e->has_precision = true; e->precision = w->precision; e->has_scale = true; e->scale = w->scale; }
+        ref_coldata* c = &cols[i]; c->ptype = w->ptype; c->type_length = w->tlen; c->max_def = nested ? 1 : 0; c->nlevels = 1; c->def = ref_alloc(&RA, 4); c->rep = ref_alloc(&RA, 4); c->def[0] = (int16_t)c->max_def; c->nvalues = 1; c->fixed = ref_alloc(&RA, 32); c->strs = ref_alloc(&RA, sizeof(ref_str)); c->strs[0].p = (const uint8_t*)"v"; c->strs[0].n = 1; L[i].crc = true; }
+    ref_write_req rq; memset(&rq, 0, sizeof rq); rq.schema = sc; rq.nschema = ns; rq.nleaves = count; rq.nrg = 1; rq.rg_rows = &rows; rq.cols = cols; rq.layouts = L; ref_buf img; ref_buf_init(&img);
+    if (ref_pq_write(&RA, &rq, &img, NULL, 0, NULL)) mc_harness_error("reference writer failed (logical types)");
+    uint8_t* x = mc_exact(img.p, img.n); carquet_error_t err = CARQUET_ERROR_INIT; carquet_reader_t* rd = carquet_reader_open_buffer(x, img.n, NULL, &err);
+    if (!rd) mc_fail("logical-type.file.open-failed", "%s: code %d %s", desc, err.code, err.message);
+    else { const carquet_schema_t* s = carquet_reader_schema(rd);
+        for (int i = 0; i < count; i++) { const carquet_schema_node_t* nd = carquet_schema_get_element(s, (nested ? 2 : 1) + i); if (!nd) { mc_fail("logical-type.file.element-missing", "%s: element %d", desc, i); continue; } check_logical(carquet_schema_node_logical_type(nd), &LT[(first + i) % NLT], "file", desc); }
+        carquet_reader_close(rd); }
+    free(x); ref_buf_free(&img);
+    /* (ii) the builder: add_column with the logical type, accessor, and the footer the writer produces (parsed by the reference) */
+    if (nested) return;
+    carquet_schema_t* s = carquet_schema_create(&err); if (!s) return;
+    for (int i = 0; i < count; i++) { const lt_t* w = &LT[(first + i) % NLT]; carquet_logical_type_t lt; memset(&lt, 0, sizeof lt); lt.id = (carquet_logical_type_id_t)w->carquet_id;
+        if (w->thrift_id == 5) { lt.params.decimal.precision = w->precision; lt.params.decimal.scale = w->scale; } else if (w->thrift_id == 7) { lt.params.time.unit = (carquet_time_unit_t)(w->unit - 1); lt.params.time.is_adjusted_to_utc = w->utc != 0; }
+        else if (w->thrift_id == 8) { lt.params.timestamp.unit = (carquet_time_unit_t)(w->unit - 1); lt.params.timestamp.is_adjusted_to_utc = w->utc != 0; } else if (w->thrift_id == 10) { lt.params.integer.bit_width = (int8_t)w->bit_width; lt.params.integer.is_signed = w->is_signed != 0; }
+        if (carquet_schema_add_column(s, w->name, (carquet_physical_type_t)w->ptype, &lt, CARQUET_REPETITION_REQUIRED, w->tlen) != CARQUET_OK) { mc_fail("logical-type.builder.add-column-refused", "%s: %s", desc, w->name); carquet_schema_free(s); return; } }
+    for (int i = 0; i < count; i++) { const carquet_schema_node_t* nd = carquet_schema_get_element(s, 1 + i); if (nd) check_logical(carquet_schema_node_logical_type(nd), &LT[(first + i) % NLT], "builder", desc); }
+    char* mem = NULL; size_t mlen = 0; FILE* f = open_memstream(&mem, &mlen); carquet_writer_t* wtr = f ? carquet_writer_create_file(f, s, NULL, &err) : NULL;
+    if (wtr) { if (carquet_writer_close(wtr) == CARQUET_OK) { fflush(f); ref_file rf; if (ref_pq_read(&RA, (const uint8_t*)mem, mlen, &rf, 0)) mc_fail("logical-type.written-file.ref-reader-rejects", "%s: %s", desc, rf.err);
+            else for (int i = 0; i < count && i + 1 < rf.meta.nschema; i++) { const ref_schema_elem* e = &rf.meta.schema[i + 1]; const lt_t* w = &LT[(first + i) % NLT];
+                bool ok = e->has_logical && e->logical.id == w->thrift_id && (w->thrift_id != 7 && w->thrift_id != 8 ? true : e->logical.unit == w->unit && e->logical.utc == (w->utc != 0)) && (w->thrift_id != 5 || (e->logical.precision == w->precision && e->logical.scale == w->scale)) && (w->thrift_id != 10 || (e->logical.bit_width == w->bit_width && e->logical.is_signed == (w->is_signed != 0)));
+                if (!ok) mc_fail("logical-type.written-file.differs", "%s: column %s: footer has logical id %d unit %d utc %d precision %d scale %d width %d signed %d", desc, w->name, e->has_logical ? e->logical.id : -1, e->logical.unit, e->logical.utc, e->logical.precision, e->logical.scale, e->logical.bit_width, e->logical.is_signed); } }
+        fclose(f); } else if (f) fclose(f);
+    free(mem); carquet_schema_free(s);
+}
+/* a group added when the element array is exactly full (the array is reallocated while the group is being added) */
+static void builder_group_case(int pos, int rep) {
+    carquet_error_t err = CARQUET_ERROR_INIT; carquet_schema_t* s = carquet_schema_create(&err); if (!s) return; char nm[32];
+    for (int i = 1; i < pos; i++) { snprintf(nm, sizeof nm, "col_%d", i); if (carquet_schema_add_column(s, nm, CARQUET_PHYSICAL_INT32, NULL, CARQUET_REPETITION_REQUIRED, 0) != CARQUET_OK) { mc_fail("builder.add-column-refused", "column %d", i); carquet_schema_free(s); return; } }
+    snprintf(nm, sizeof nm, "grp_%d", pos); int32_t gi = carquet_schema_add_group(s, nm, (carquet_field_repetition_t)rep, 0);
+    if (gi != pos) mc_fail("builder.group.index", "add_group as element %d returned %d", pos, gi);
+    for (int i = 0; i < 3; i++) { snprintf(nm, sizeof nm, "tail_%d", i); if (carquet_schema_add_column(s, nm, CARQUET_PHYSICAL_INT64, NULL, CARQUET_REPETITION_OPTIONAL, 0) != CARQUET_OK) mc_fail("builder.add-column-refused", "tail column %d after the group", i); }
+    if (carquet_schema_num_elements(s) != pos + 4) mc_fail("builder.group.num-elements", "%d elements, built %d", carquet_schema_num_elements(s), pos + 4);
+    if (carquet_schema_num_columns(s) != pos - 1 + 3) mc_fail("builder.group.num-columns", "%d columns, built %d", carquet_schema_num_columns(s), pos + 2);
+    const carquet_schema_node_t* nd = carquet_schema_get_element(s, pos); snprintf(nm, sizeof nm, "grp_%d", pos);
+    if (!nd) mc_fail("builder.group.element-missing", "element %d", pos);
+    else { const char* gn = carquet_schema_node_name(nd); int wd = rep ? 1 : 0, wr = rep == 2 ? 1 : 0;
+        if (!gn || strcmp(gn, nm) || carquet_schema_node_is_leaf(nd) || (int)carquet_schema_node_repetition(nd) != rep || carquet_schema_node_max_def_level(nd) != wd || carquet_schema_node_max_rep_level(nd) != wr)
+            mc_fail(pos >= 64 ? "builder.group.element.at-capacity-growth" : "builder.group.element", "group added as element %d (repetition %d): name %s leaf %d repetition %d levels %d/%d", pos, rep, gn ? gn : "(null)", (int)carquet_schema_node_is_leaf(nd), (int)carquet_schema_node_repetition(nd), carquet_schema_node_max_def_level(nd), carquet_schema_node_max_rep_level(nd)); }
+    for (int i = 1; i < pos + 4; i++) { if (i == pos) continue; const carquet_schema_node_t* e = carquet_schema_get_element(s, i); if (i < pos) snprintf(nm, sizeof nm, "col_%d", i); else snprintf(nm, sizeof nm, "tail_%d", i - pos - 1);
+        if (!e || !carquet_schema_node_name(e) || strcmp(carquet_schema_node_name(e), nm) || !carquet_schema_node_is_leaf(e)) { mc_fail("builder.group.neighbours", "element %d next to a group at %d is not %s", i, pos, nm); break; }
+        int want = i < pos ? i - 1 : i - 2; if (carquet_schema_find_column(s, nm) != want) { mc_fail("builder.group.find-column", "find_column(%s) = %d, expected %d (group at element %d)", nm, carquet_schema_find_column(s, nm), want, pos); break; } }
+    carquet_schema_free(s);
+}
+
 static void enumerate(void) {
-    mc_rule("C17: every ordered rooted tree with up to 6 (quick) / 7 (thorough) nodes x every labeling of the non-root nodes by {REQUIRED, OPTIONAL, REPEATED} x {unique, colliding} names, written by the reference writer with rows whose levels are at "
+    mc_rule("C17: every ordered rooted tree with up to 6 (quick) / 7 (thorough) nodes x every labeling of the non-root nodes by {REQUIRED, OPTIONAL, REPEATED} x {unique, colliding, prefix-of-an-earlier-leaf} names, written by the reference writer with rows whose levels are at "
             "their maxima (leaf types cycle through the 8 physical types). Oracle = textbook definition computed on the tree: leaves in DFS order, max_def = optional+repeated nodes on the path, max_rep = repeated nodes; element accessors; "
-            "find_column; the levels carquet reports AND the levels it uses (read_batch must return the stored levels and values). Builder: add_column sequences of length {0,1,2,63,64,65,127,128,129,1000} x 4 repetition modes x 9 type modes, "
+            "find_column; the levels carquet reports AND the levels it uses (read_batch must return the stored levels and values). Builder: a group added as element {1,2,7,31,62..66,100,126..130,254..258,510..514,1023..1025} (the element array grows at 64,128,...) x 3 repetitions; 19 logical types (every TIME/TIMESTAMP unit x UTC flag, decimals, integers) through reference-written footers (flat and nested) and through the builder + writer; add_column sequences of length {0,1,2,63,64,65,127,128,129,1000} x 4 repetition modes x 9 type modes, "
             "accessors compared, and the file the writer produces from the schema read back by the reference reader. Non-trivial = every case; distinct by (tree, labeling, naming) key.");
     int NT = mc_thorough() ? 7 : 6;
     mc_stage("trees.all-shapes.all-labelings");
@@ -187,6 +266,19 @@ static void enumerate(void) {
         if (!mc_next()) continue;
         mc_desc("c17:builder;ncols=%d;repmode=%d;typemode=%d", LEN[li], rm, tm); mc_case_key(mc_mix(0x17b, ((uint64_t)li << 16) | ((uint64_t)rm << 8) | (uint64_t)tm)); mc_nontrivial();
         builder_case(LEN[li], rm, tm); ref_arena_free(&RA);
+    }
+    mc_stage("builder.group-at-every-capacity-boundary");
+    static const int POS[] = { 1, 2, 7, 31, 62, 63, 64, 65, 66, 100, 126, 127, 128, 129, 130, 254, 255, 256, 257, 258, 510, 511, 512, 513, 514, 1023, 1024, 1025 };
+    for (int pi = 0; pi < 28; pi++) for (int rep = 0; rep < 3; rep++) {
+        if (!mc_next()) continue;
+        mc_desc("c17:builder-group;element=%d;repetition=%d", POS[pi], rep); mc_case_key(mc_mix(0x17c, ((uint64_t)pi << 8) | (uint64_t)rep)); mc_nontrivial();
+        builder_group_case(POS[pi], rep);
+    }
+    mc_stage("logical-types.every-type.every-unit.flat-and-nested");
+    for (int first = 0; first < NLT; first++) for (int count = 1; count <= (mc_thorough() ? NLT : 3); count += (count < 3 ? 1 : NLT - 3)) for (int nested = 0; nested < 2; nested++) {
+        if (!mc_next()) continue;
+        mc_desc("c17:logical;first=%d;count=%d;nested=%d", first, count, nested); mc_case_key(mc_mix(0x17d, ((uint64_t)first << 16) | ((uint64_t)count << 8) | (uint64_t)nested)); mc_nontrivial();
+        logical_case(first, count, nested); ref_arena_free(&RA);
     }
 }
 int main(int argc, char** argv) { return mc_main(argc, argv, "c17", enumerate); }
